@@ -179,7 +179,7 @@ def _kw_lists():
                 yield [(k, v) for k, v in zip(ks, vs)]
 
 
-@contract(ParseMCNPCell.parse_one_cell_worker, props=['C12', 'C15'], name='ParseMCNPCell.importance-of-a-cell',
+@contract(ParseMCNPCell.parse_one_cell_worker, props=['C12', 'C15', 'C01'], name='ParseMCNPCell.importance-of-a-cell',
           status='B')
 class _CellImp:
     """Importance of a cell: from the IMP keywords of the card (zero iff zero for every particle type named on the
